@@ -6,6 +6,7 @@ CONSTANTS
   Bs = {10, 20}
   TSs = {0, 1, 2}
   TNs = {0, 1, 3}
+  Ps <- PsThorough
   XSpan = 3
 INVARIANT InverseWhereFinite
 INVARIANT NonIncreasing
